@@ -19,9 +19,12 @@ from harness import common, tlc, imports
 
 ENTRY = ['import bs4', 'from bs4 import BeautifulSoup', 'import bs4.element', 'import soupsieve',
          'from soupsieve import select', 'import soupsieve.css_match', 'import soupsieve.css_parser',
-         'import soupsieve.css_types']
-MARKUP = '<div id="a"><p class="x">one</p><p>two<span lang="en">s</span></p><input type="checkbox" checked></div>'
-SEL = 'div > p:nth-child(2) span:lang(en), :checked, p.x:-soup-contains(one)'
+         'import soupsieve.css_types', 'from soupsieve import *', 'from bs4 import *']
+MARKUP = ('<!DOCTYPE html><html lang="en"><head><title>t</title></head><body><!--c--><div id="a"><p class="x">one</p><p>two<span lang="en">s</span></p>'
+          '<p id="e"><!-- only a comment --></p><p id="pi"><?pi x?></p><input type="checkbox" checked><i></i></div><!--tail--></body></html>')
+# one selector per mechanism whose answer could depend on what was bound when soupsieve was imported
+SELS = ['div > p:nth-child(2) span:lang(en), :checked, p.x:-soup-contains(one)', ':empty', ':root', 'p:-soup-contains-own(comment)', ':-soup-contains(pi)',
+        'p:not(:empty)', ':root > body', ':is(p, i):last-child', ':default', ':dir(ltr)', '[id]', ':nth-last-of-type(1)', 'html:has(> body i:empty)']
 
 CHILD = r'''
 import sys, io, json
@@ -40,8 +43,8 @@ _res = {'exc': _exc, 'out': _o.getvalue(), 'err': _e.getvalue()}
 try:
     import bs4, soupsieve
     _s = bs4.BeautifulSoup(%r, 'html.parser')
-    _res['r1'] = [str(t) for t in _s.select(%r)]
-    _res['r2'] = [str(t) for t in soupsieve.select(%r, _s)]
+    _res['r1'] = [[str(t)[:40] for t in _s.select(q)] for q in %r]
+    _res['r2'] = [[str(t)[:40] for t in soupsieve.select(q, _s)] for q in %r]
 except BaseException as _x:
     _res['after'] = type(_x).__name__ + ': ' + str(_x)[:200]
 %s
@@ -52,7 +55,7 @@ print(json.dumps(_res))
 def _run_child(args):
     stmts, logged, repo = args
     body = '\n'.join('    ' + s for s in stmts)
-    prog = (imports.LOGGER if logged else '') + CHILD % (body, MARKUP, SEL, SEL, "_res['events'] = _ev" if logged else '')
+    prog = (imports.LOGGER if logged else '') + CHILD % (body, MARKUP, SELS, SELS, "_res['events'] = _ev" if logged else '')
     env = dict(os.environ)
     env['PYTHONPATH'] = repo
     env.pop('PYTHONWARNINGS', None)
@@ -130,8 +133,8 @@ def main(tier):
                 ref = c['r1']
             elif c['r1'] != ref:
                 bad.append('select result depends on the import order: %r vs %r' % (c['r1'], ref))
-            if not c['r1']:
-                bad.append('reference select returned nothing')
+            if not any(c['r1']):
+                bad.append('reference selects returned nothing')
         for b in bad:
             chk.violation('%s|%s' % (name, b[:80]), 'fresh interpreter `%s`: %s (model predicted err=%s)' % (name, b, model_err),
                           {'cfg': 'fresh-interpreter', 'group': b[:60], 'script': s, 'model': p.get('err')})
